@@ -329,7 +329,7 @@ def rule_R1e(res, prog, prop=PROP, rid="C14.R1e"):
     def watch(t):
         return S in t or O in t
     rets, nodes = cu.returns_with_atoms(fn, watch)
-    succ = [(ln, rid, at) for (ln, rid, at) in rets if cu.success_ret(nodes[rid])]
+    succ = [(ln, rk, at) for (ln, rk, at) in rets if cu.success_ret(nodes[rk])]
     if not succ:
         raise AnalysisBroken("C14.R1e: matrixResumeSession has no success return")
 
@@ -351,7 +351,7 @@ def rule_R1e(res, prog, prop=PROP, rid="C14.R1e"):
                 return False
         return True
     bad = None
-    for (ln, rid, at) in sorted(succ, key=lambda x: x[0]):
+    for (ln, rk, at) in sorted(succ, key=lambda x: x[0]):
         for (sv, ov) in ((0, 1), (1, 0)):
             if consistent(at, sv, ov):
                 bad = (ln, sv, ov, sorted(at))
